@@ -564,7 +564,7 @@ Proof.
             let pk := {| ep_chan := ch; ep_coll := lc; ep_cname := ln; ep_spch := lsp; ep_begin := b2; ep_end := e2; ep_poschan := ch; ep_endposts := e2;
                          ep_msgs := if N.eqb (lts c2) 0 then tick ch b2 b2 :: (m2 ++ [tick ch gen e2])%list else (m2 ++ [tick ch gen e2])%list |} in
             let s3 := {| dcolls := dcolls s2; dparts := dparts s2; handlers := handlers s2; clocks := clocks s2; heap := heap s2; cbars := cbars s2;
-                         pbars := pbars s2; pbar_handlers := pbar_handlers s2; keymap := keymap s2; out := (out s2 ++ [pk])%list; events := events s2; alive := alive s2 |} in
+                         pbars := pbars s2; pbar_handlers := pbar_handlers s2; keymap := keymap s2; out := (out s2 ++ [pk])%list; events := events s2; alive := alive s2; mg := mg s2; wsh := wsh s2 |} in
             handlers s3 = handlers s /\ events s3 = events s /\ dcolls s3 = dcolls s /\ dparts s3 = dparts s /\ cbars s3 = cbars s /\ pbars s3 = pbars s
             /\ heap s3 = heap s /\ keymap s3 = keymap s /\ pbar_handlers s3 = pbar_handlers s
             /\ (forall ch', ch <> ch' -> clock_of s3 ch' = clock_of s ch')
